@@ -23,8 +23,12 @@ const maxSteps = 40_000_000
 
 func (x *executor) tick(n int) {
 	x.steps += int64(n)
-	if x.steps > maxSteps {
-		unsup("resource limit: more than %d evaluation steps", maxSteps)
+	limit := int64(maxSteps)
+	if x.db != nil && x.db.MaxSteps > 0 {
+		limit = x.db.MaxSteps
+	}
+	if x.steps > limit {
+		unsup("resource limit: more than %d evaluation steps", limit)
 	}
 }
 
